@@ -313,7 +313,12 @@ def run_case(case):
                         _cmp_bodies(cut(got), cut(_strip_doc(fn3.body)), discs, "call3")
             else:
                 ft = case["first"] or "static"
-                node = emit.function(ir, function_name=kinds.FUNC_NAME, function_type=ft)
+                if case.get("docstyle", "full") == "full" and len(case["body"]) % 2:
+                    # both are optional arguments: left out, the emitter takes them from the parsed description
+                    tags.add("name_and_type_from_ir")
+                    node = emit.function(ir, function_name=None, function_type=None)
+                else:
+                    node = emit.function(ir, function_name=kinds.FUNC_NAME, function_type=ft)
                 text = to_code(node)
                 got = _strip_doc(ast.parse(text).body[0].body)
                 _cmp_bodies(orig, got, discs, "function")
